@@ -41,6 +41,7 @@ static std::shared_ptr<CbPlan> genCbPlan(vf::Rng &r, bool outbound)
   c->udAtData = r.chance(0.15);
   c->unobsAtData = r.chance(0.2);
   c->closeAtData = r.chance(0.05);
+  c->modeAtData = r.chance(0.08);
   c->obsAtClose = r.chance(0.3) ? int(r.range(1, 2)) : 0;
   c->udAtClose = r.chance(0.15);
   c->unobsAtClose = r.chance(0.2);
@@ -63,6 +64,16 @@ static void genCommon(vf::Rng &r, Plan &p, bool outbound)
   p.midMs = r.chance(0.3) ? 0 : double(r.below(120));
   p.raceJitterMs = double(int64_t(r.below(13)) - 6);
   p.stallAtRace = r.chance(0.6);
+  bool rmKind = p.kind == K_OUT_PLAIN || p.kind == K_IN_PLAIN || p.kind == K_U_IN || p.kind == K_U_OUT || p.kind == K_U_VIA;
+  p.rm = rmKind && r.chance(0.3);
+  p.rmPartialDrain = r.chance(0.55); p.rmDisabledFlip = r.chance(0.2); p.rmLiveFlush = r.chance(0.3); p.rmOverlap = r.chance(0.3);
+  if (p.rm)
+  {
+    // the actor is the only user-data agent of a read-mode session: its cleanup marks the end of the close fan-out
+    p.actUd = true; p.racyUd = false;
+    if (p.cb) { p.cb->udCallbacks = false; p.cb->udAtAnnounce = p.cb->udAtData = p.cb->udAtClose = false; }
+  }
+  p.rmAfter = int(pickW(r, std::vector<std::pair<int, double>>{{0, 55}, {1, 20}, {2, 10}, {3, 15}}));
 }
 
 static std::vector<Plan> genTcpPlans(vf::Rng &r, Run &H, int n, bool bp, bool wstall)
@@ -252,6 +263,7 @@ static void runHistory(uint64_t seed, uint64_t idx)
       stopAfterActors = true; hammer = false;
     }
     stopModes += stopAfterActors ? "A" : "R";
+    H.stopWaitsForActors = stopAfterActors;
 
     std::atomic<int> actorsRunning{int(plans.size())};
     std::vector<std::thread> th;
